@@ -220,6 +220,7 @@ def run_C16(ctx, R):
     from .rules import tab, lst, out, utilsx
     _scoped(ctx, R, utilsx.tab18, C16_ENTRIES, 3)
     _per_config(ctx, R, utilsx.esc4)
+    _per_config(ctx, R, utilsx.esc5)
     _per_config(ctx, R, utilsx.idx1)
     _per_config(ctx, R, _inl(utilsx.numu))
     from .rules import numcls as _numcls
@@ -233,7 +234,9 @@ def run_C16(ctx, R):
     _per_config(ctx, R, tab.tab9)
     _scoped(ctx, R, lst.lst1, C16_ENTRIES, 6)
     _scoped(ctx, R, out.out5, C16_ENTRIES, 3)
-    _scoped(ctx, R, lambda units, r: out.out6(units, r, unit_names=('cJSON_Utils.c',)), C16_ENTRIES, 1)
+    def out6(units, r):
+        out.out6(units, r, unit_names=('cJSON_Utils.c',))
+    _scoped(ctx, R, out6, C16_ENTRIES, 1)
     _per_config(ctx, R, utilsx.pfx1)
     from .rules import shape
     _per_config(ctx, R, lambda units, r: shape.shp1(units, r, only_unit='cJSON_Utils.c'))
@@ -264,6 +267,7 @@ def run_C17(ctx, R):
     _per_config(ctx, R, _inl(utilsx.gen2))
     _per_config(ctx, R, utilsx.esc2)
     _per_config(ctx, R, utilsx.esc4)
+    _per_config(ctx, R, utilsx.esc5)
     _per_config(ctx, R, utilsx.ord2)
     _per_config(ctx, R, utilsx.dig1)
     from .rules import tree
@@ -1040,10 +1044,13 @@ _WAVE10 = {
 }
 for _k, _t in _WAVE10.items():
     PROPERTIES[_k]['explanation'] = PROPERTIES[_k]['explanation'] + ' ' + _t
+for _k in ('C16', 'C17'):
+    PROPERTIES[_k]['explanation'] += (" ESC5: a decoder of ~0/~1 that finds the next sequence with a search resumes the search behind the "
+                                      "character it just decoded (RFC 6901 section 4: ~01 is ~1, not /); none on the pinned tree.")
 for _k in ('C15', 'C16', 'C17'):
     PROPERTIES[_k]['not_decided'] = list(PROPERTIES[_k]['not_decided']) + [
-        'a decoder of ~0/~1 that is not byte-by-byte (strchr + memmove): TAB9 ends at exit 2 on it, for the defective and the repaired '
-        'variant alike (seed s10_C17)']
+        'what a decoder of ~0/~1 that is not byte-by-byte (strchr + memmove) produces: TAB9 ends at exit 2 on it; ESC5 decides one '
+        'necessary condition of it (seed s10_C17)']
 
 def claimed():
     return sorted(PROPERTIES)
